@@ -10,3 +10,21 @@ package structfieldeffects
 //@ focus out-of-scope (not (callres "IsPkgInScope"))
 //@ ensures silent-when-out-of-scope (= (calls "effect:") 0)
 //@ ensures empty-result-when-out-of-scope (and (fresh result0) (= (deref result0) (zero BoundaryFieldEffects)) (isnil result1))
+
+//@ -- C16: the boundary summary is shared by all per-function goroutines; its accessors hand out fresh slices, so
+//@ -- callers may sort or extend what they get.
+//@ func (*BoundaryFieldEffects).ParamReadPaths
+//@ prop C16
+//@ ghost returns-owned
+//@ func (*BoundaryFieldEffects).ReturnReadPaths
+//@ prop C16
+//@ ghost returns-owned
+//@ func (*BoundaryFieldEffects).ReturnEffectPaths
+//@ prop C16
+//@ ghost returns-owned
+//@ func (*BoundaryFieldEffects).ParamWritePaths
+//@ prop C16
+//@ ghost returns-owned
+//@ func fieldPathsForIndex
+//@ prop C16
+//@ ghost returns-owned
